@@ -91,7 +91,7 @@ fn mux_cases(thorough: bool) -> Vec<MuxCase> {
     let dims = [(320u32, 240u32), (1920, 1080), (4096, 2160)];
     let fpss = ["1", "29.97", "120"];
     let rates = [(44100u32, 2u8), (48000, 1), (8000, 8)];
-    let titles = [None, Some("T"), Some("é x")];
+    let titles = [None, Some("T"), Some("é x"), Some("  padded title  "), Some("")];
     let langs = [None, Some("eng")];
     let modes = [(false, false), (true, false), (false, true), (true, true)];
     let mut audios: Vec<Option<(Option<&'static str>, ACodec, u32, u8)>> = vec![None];
@@ -124,7 +124,7 @@ fn mux_cases(thorough: bool) -> Vec<MuxCase> {
         let mut k = 0usize;
         for (ca, c) in VCODEC_ARGS {
             for a in &audios {
-                v.push(MuxCase { codec_arg: ca, codec: c, dims: dims[k % 3], fps: fpss[(k / 3) % 3], audio: *a, title: titles[(k / 2) % 3], lang: langs[k % 2], json: modes[k % 4].0, verbose: modes[k % 4].1 });
+                v.push(MuxCase { codec_arg: ca, codec: c, dims: dims[k % 3], fps: fpss[(k / 3) % 3], audio: *a, title: titles[(k / 2) % 5], lang: langs[k % 2], json: modes[k % 4].0, verbose: modes[k % 4].1 });
                 k += 1;
             }
         }
@@ -570,7 +570,7 @@ pub fn check(ctx: &Ctx) -> i32 {
         &tally,
         Meta {
             level: "exploration",
-            rule: format!("the built muxide binary is spawned for: {n_mux} valid mux option combinations ({}) - exit 0, output file byte-equal to an in-process library run with the same settings and the single frame at t=0, reported frame counts; ~90 single invalid deviations from a valid command (missing/unknown/out-of-range options, eight kinds of bad input file for video and audio, --fragmented, wrong codec for the data) - exit != 0 and no completion message; validate: 10 x 10 input kinds (absent, missing, empty, whitespace, valid, odd, bad char, non-ASCII, binary) x {{--json, -o file}} - verdict valid iff every given input exists and is non-empty even-length hex; info: {n_info} files of <= {} boxes with size fields over {{0, 1, 7, 8, 9, exact, exact+1, 2^32-1}} x ASCII / non-UTF-8 types, files shorter than 8 bytes (termination within 5 s), and every well-formed file produced by the mux runs (box list equals the reader's top-level walk). Distinct by output file / verdict.", if ctx.thorough { "full product of 10 codec spellings x 3 dimensions x 3 frame rates x 28 audio options x 3 titles x 2 languages x 4 output modes" } else { "every (codec spelling, audio option) pair with the other factors cycling, plus the full product of dimensions x fps x title x language x output mode" }, if ctx.thorough { 3 } else { 2 }),
+            rule: format!("the built muxide binary is spawned for: {n_mux} valid mux option combinations ({}) - exit 0, output file byte-equal to an in-process library run with the same settings and the single frame at t=0, reported frame counts; ~90 single invalid deviations from a valid command (missing/unknown/out-of-range options, eight kinds of bad input file for video and audio, --fragmented, wrong codec for the data) - exit != 0 and no completion message; validate: 10 x 10 input kinds (absent, missing, empty, whitespace, valid, odd, bad char, non-ASCII, binary) x {{--json, -o file}} - verdict valid iff every given input exists and is non-empty even-length hex; info: {n_info} files of <= {} boxes with size fields over {{0, 1, 7, 8, 9, exact, exact+1, 2^32-1}} x ASCII / non-UTF-8 types, files shorter than 8 bytes (termination within 5 s), and every well-formed file produced by the mux runs (box list equals the reader's top-level walk). Distinct by output file / verdict.", if ctx.thorough { "full product of 10 codec spellings x 3 dimensions x 3 frame rates x 28 audio options x 5 titles (incl. surrounding whitespace and empty) x 2 languages x 4 output modes" } else { "every (codec spelling, audio option) pair with the other factors cycling, plus the full product of dimensions x fps x title x language x output mode" }, if ctx.thorough { 3 } else { 2 }),
             bound: "option domains as listed".into(),
             exhaustive: true,
             assumptions: vec!["validate with no inputs, mux --dry-run and --creation-time (documented as unimplemented) are outside the statement and not judged".into(), "the binary under test is built from /repo's working tree into /verif/target/cli by ./check".into()],
